@@ -14,6 +14,7 @@ use svm::Ledger;
 fn worlds(thorough: bool) -> Vec<Built> {
     let mut v = vec![stdworlds::build_with_roots(&stdworlds::std_spec("c05-std-dfd", [Enc::Dynamic, Enc::Fixed, Enc::Dynamic], 3000, 300), &stdworlds::std_roots())];
     v.push(stdworlds::build_with_roots(&stdworlds::chain_spec("c05-chain-ddd", [Enc::Dynamic, Enc::Dynamic, Enc::Dynamic], 100, 0), &stdworlds::chain_roots()));
+    v.push(stdworlds::build_with_roots(&stdworlds::chain_spec("c05-dust-fdf", [Enc::Fixed, Enc::Dynamic, Enc::Fixed], 3000, 300), &stdworlds::dust_roots()));
     if thorough {
         v.push(stdworlds::build_with_roots(&stdworlds::chain_spec_at("c05-chain-low", [Enc::Dynamic, Enc::Fixed, Enc::Dynamic], 3000, 300, -112640), &stdworlds::chain_roots()));
         v.push(stdworlds::build_with_roots(&stdworlds::std_spec("c05-std-fdf", [Enc::Fixed, Enc::Dynamic, Enc::Fixed], 100, 0), &stdworlds::std_roots()[1..]));
@@ -40,6 +41,9 @@ fn alphabet(b: &Built) -> Vec<Op> {
 
 fn alphabet0(b: &Built) -> Vec<Op> {
     let n = b.w.positions.len() as u8;
+    if b.name.contains("dust") {
+        return stdworlds::dust_alphabet(n).into_iter().filter(|o| !matches!(o, Op::Update { .. } | Op::CollectFees { .. } | Op::CollectProtocol { .. })).collect();
+    }
     let mut a = vec![];
     for pos in 0..n {
         a.push(Op::Inc { pos, liq: stdworlds::BIG, v2: pos % 2 == 1 });
